@@ -73,6 +73,51 @@ def _field_order(obj, cands: list[str], getter, what: str) -> list[str]:
     raise _err(f"{what}.signature is not sha256 of the concatenated str(hash_value(field)) over any order of {cands}")
 
 
+def _collect_norm_facts() -> dict:
+    """Which declared paths `pytask_collect_node` lexically normalises (collect.py): probed on dotted spellings of a
+    non-existing file, for a plain `Path` value and for PathNode / PickleNode / DirectoryNode instances, relative and absolute.
+    Each case must either give os.path.normpath of the absolute path or the (pathlib-tidied) absolute path as spelled."""
+    import os
+    from _pytask.collect import pytask_collect_node
+    from _pytask.models import NodeInfo
+    from _pytask.nodes import DirectoryNode, PathNode, PickleNode
+    from _pytask.session import Session
+    root = Path("/verif-nonexistent-root")
+    base = root / "w"
+    session = Session.from_config({"check_casing_of_paths": False, "paths": (root,), "root": root})
+
+    def collected(make, sp):
+        ni = NodeInfo(arg_name="dep", path=(), value=make(Path(sp)), task_path=base / "task_m.py", task_name="task_x")
+        node = pytask_collect_node(session, base, ni)
+        got = getattr(node, "root_dir", None) if isinstance(node, DirectoryNode) else getattr(node, "path", None)
+        return None if got is None else str(got)
+
+    makers = {
+        "plain": [lambda p: p],
+        "node": [lambda p: PathNode(path=p), lambda p: PickleNode(path=p), lambda p: DirectoryNode(root_dir=p, pattern="*.tx")],
+    }
+    facts = {}
+    for form, mks in makers.items():
+        for absolute in (False, True):
+            verdicts = set()
+            for mk in mks:
+                for rel in ("x/../f.txt", "../w/d/../f.txt", "d/./e/../../f.txt"):
+                    sp = str(base) + "/" + rel if absolute else rel
+                    spelled = str(Path(str(base) + "/" + rel))
+                    want = os.path.normpath(spelled)
+                    got = collected(mk, sp)
+                    if got == want:
+                        verdicts.add(True)
+                    elif got == spelled:
+                        verdicts.add(False)
+                    else:
+                        raise _err(f"collection turns the {form} path {sp!r} into {got!r}: neither as spelled nor os.path.normpath")
+            if len(verdicts) != 1:
+                raise _err(f"collection normalises {form} {'absolute' if absolute else 'relative'} paths inconsistently across node classes / spellings")
+            facts[(form, absolute)] = verdicts.pop()
+    return facts
+
+
 def hash_facts() -> list[str]:
     import extract
     sys.path.insert(0, str(extract.REPO / "src"))
@@ -154,6 +199,7 @@ def hash_facts() -> list[str]:
         mt = assigns.get(a1, a1)
         if mt != "stat.st_mtime":
             raise _err(f"_get_state keys the memo with {mt!r}, not stat.st_mtime")
+        cn = _collect_norm_facts()
     except Exception as e:
         if type(e).__name__ == "ExtractError":
             raise
@@ -174,5 +220,11 @@ def hash_facts() -> list[str]:
     L.append(f"def sigPythonNodeFields : List String := {strs(py_fields)}")
     L.append("/-- arguments entering the memo key of `hash_path` as `_get_state` calls it (`cache.py:58-95`, `nodes.py:390-413`). -/")
     L.append(f"def memoKeyFields : List String := {strs(memo_fields)}")
+    L.append("/-- which declared paths `pytask_collect_node` (`collect.py`) runs through `os.path.normpath`: a plain `Path` value /")
+    L.append("a PathNode, PickleNode or DirectoryNode instance, given relative / absolute (probed on dotted spellings). -/")
+    L.append(f"def collectPlainRelNorm : Bool := {extract.lean_bool(cn[('plain', False)])}")
+    L.append(f"def collectPlainAbsNorm : Bool := {extract.lean_bool(cn[('plain', True)])}")
+    L.append(f"def collectNodeRelNorm : Bool := {extract.lean_bool(cn[('node', False)])}")
+    L.append(f"def collectNodeAbsNorm : Bool := {extract.lean_bool(cn[('node', True)])}")
     L.append("")
     return L
